@@ -1,6 +1,83 @@
-(* C14 - placeholder: theorems are added with Proofs/VmProofs.v *)
-From Xeh Require Import Model.Prelude Model.Vm.
+(* C14 - resource limits are hard bounds and hitting one is recoverable. *)
+From Xeh Require Import Model.Prelude Model.Bits Model.Cell Model.Vm Model.Words Proofs.VmLimits.
+Local Notation length := List.length.
 
-Theorem C14_next_stopped : forall nf s, is_running s = false -> next nf s = ROk tt s.
-Proof. intros nf s H. unfold next. rewrite H. reflexivity. Qed.
-Check C14_next_stopped : forall nf s, is_running s = false -> next nf s = ROk tt s.
+(* every executed instruction is metered, and the meter never passes the limit *)
+Theorem C14_meter_bound : forall fo s s' N,
+  insn_limit s = Some N -> (meter s <= N)%Z ->
+  fetch_and_run (native_fn fo) s = ROk tt s' ->
+  (meter s < meter s' <= N)%Z /\ insn_limit s' = Some N.
+Proof. exact meter_bound. Qed.
+Check C14_meter_bound : forall fo s s' N,
+  insn_limit s = Some N -> (meter s <= N)%Z ->
+  fetch_and_run (native_fn fo) s = ROk tt s' ->
+  (meter s < meter s' <= N)%Z /\ insn_limit s' = Some N.
+
+(* hence at most N instructions execute after the limit is set (the meter starts at 0) *)
+Theorem C14_at_most_N_steps : forall fo n s sn N,
+  insn_limit s = Some N -> meter s = 0%Z -> (0 <= N)%Z ->
+  steps (native_fn fo) n s = Some sn -> (Z.of_nat n <= N)%Z.
+Proof. exact at_most_N_steps. Qed.
+Check C14_at_most_N_steps : forall fo n s sn N,
+  insn_limit s = Some N -> meter s = 0%Z -> (0 <= N)%Z ->
+  steps (native_fn fo) n s = Some sn -> (Z.of_nat n <= N)%Z.
+
+(* the instruction that would exceed the limit fails, with nothing changed *)
+Theorem C14_insn_limit_is_error : forall nf s N,
+  insn_limit s = Some N -> (N <= meter s)%Z -> fetch_and_run nf s = RErr ELimit None s.
+Proof. exact insn_limit_is_error. Qed.
+Check C14_insn_limit_is_error : forall nf s N,
+  insn_limit s = Some N -> (N <= meter s)%Z -> fetch_and_run nf s = RErr ELimit None s.
+
+(* the data stack never grows beyond the limit (or beyond what it held when the limit was set),
+   whether the instruction succeeds or fails *)
+Theorem C14_stack_bound : forall fo s r s' S,
+  stack_limit s = Some S ->
+  fetch_and_run (native_fn fo) s = r -> res_state r = Some s' ->
+  length (ds s') <= Nat.max (length (ds s)) (Z.to_nat S) /\ stack_limit s' = Some S.
+Proof. exact stack_bound. Qed.
+Check C14_stack_bound : forall fo s r s' S,
+  stack_limit s = Some S ->
+  fetch_and_run (native_fn fo) s = r -> res_state r = Some s' ->
+  length (ds s') <= Nat.max (length (ds s)) (Z.to_nat S) /\ stack_limit s' = Some S.
+
+Theorem C14_push_at_limit_is_error : forall c s S,
+  stack_limit s = Some S -> (S <= Z.of_nat (length (ds s)))%Z -> push_data c s = RErr ELimit None s.
+Proof. exact push_at_limit_is_error. Qed.
+Check C14_push_at_limit_is_error : forall c s S,
+  stack_limit s = Some S -> (S <= Z.of_nat (length (ds s)))%Z -> push_data c s = RErr ELimit None s.
+
+(* running code never allocates variables; definitions do, and they are checked *)
+Theorem C14_heap_fixed_at_run_time : forall fo s r s',
+  fetch_and_run (native_fn fo) s = r -> res_state r = Some s' ->
+  length (heap s') = length (heap s) /\ heap_limit s' = heap_limit s.
+Proof. exact heap_fixed_at_run_time. Qed.
+Check C14_heap_fixed_at_run_time : forall fo s r s',
+  fetch_and_run (native_fn fo) s = r -> res_state r = Some s' ->
+  length (heap s') = length (heap s) /\ heap_limit s' = heap_limit s.
+
+Theorem C14_alloc_bound : forall v s H,
+  heap_limit s = Some H ->
+  match alloc_heap v s with
+  | ROk _ s' => (Z.of_nat (length (heap s')) <= H)%Z /\ length (heap s') = S (length (heap s))
+  | RErr _ _ s' => s' = s
+  | _ => False
+  end.
+Proof. exact alloc_bound. Qed.
+Check C14_alloc_bound : forall v s H,
+  heap_limit s = Some H ->
+  match alloc_heap v s with
+  | ROk _ s' => (Z.of_nat (length (heap s')) <= H)%Z /\ length (heap s') = S (length (heap s))
+  | RErr _ _ s' => s' = s
+  | _ => False
+  end.
+
+(* hitting a limit is recoverable: with the limit raised the same instruction executes as if
+   the limit had never been there *)
+Theorem C14_recover_stack : forall c s,
+  push_data c (set_limits s (insn_limit s) (heap_limit s) None) =
+  ROk tt (set_limits (set_ds (add_rstep RPopData s) (c :: ds s)) (insn_limit s) (heap_limit s) None).
+Proof. exact recover_stack. Qed.
+Check C14_recover_stack : forall c s,
+  push_data c (set_limits s (insn_limit s) (heap_limit s) None) =
+  ROk tt (set_limits (set_ds (add_rstep RPopData s) (c :: ds s)) (insn_limit s) (heap_limit s) None).
